@@ -25,6 +25,20 @@ import socket as _real_socket
 from typing import Any, Dict, List
 
 
+class Hang(Exception):
+    """the code under test keeps polling the fake socket without coming back from one API call (an endless loop);
+    raised by the fakes after `TICK_LIMIT` select / recv calls within one case and recorded as that case's failure"""
+
+
+TICK_LIMIT = 200000
+
+
+def _tick(world):
+    world["ticks"] = world.get("ticks", 0) + 1
+    if world["ticks"] > TICK_LIMIT:
+        raise Hang("the call does not return: more than %d select/recv calls" % TICK_LIMIT)
+
+
 class _Sock:
     def __init__(self, world):
         self.w = world
@@ -47,6 +61,7 @@ class _Sock:
         return len(data)
 
     def recv_into(self, buf, nbytes=0, flags=0):
+        _tick(self.w)
         if nbytes == 0:
             nbytes = len(buf)
         chunk = self.w["inbuf"][:nbytes]
@@ -68,6 +83,7 @@ def _shims(world):
     class Sel:
         @staticmethod
         def select(r, w, x, timeout=None):
+            _tick(world)
             return (list(r) if (world["inbuf"] or world.get("eof")) else []), list(w), []
 
     class Tm:
